@@ -561,7 +561,16 @@ fn run_case_inner(case: &Case) -> Outcome {
 fn string_strategy() -> BoxedStrategy<String> {
     let nasty = proptest::sample::select(vec!['"', '\\', '\n', '\r', '\t', '\u{0}', '\u{1}', '\u{1f}', '\u{7f}', '\u{80}', '\u{9f}', '\u{2028}', '\u{2029}', '\u{feff}', '\u{fffd}', '\u{10ffff}', '\u{1f980}', '/', '\u{e9}', '}', '{', ',', ':']);
     let ch = prop_oneof![3 => nasty, 3 => proptest::char::range('a', 'z'), 2 => any::<char>()];
-    proptest::collection::vec(ch, 0..10).prop_map(|v| v.into_iter().collect()).boxed()
+    let short = proptest::collection::vec(ch, 0..10).prop_map(|v| v.into_iter().collect::<String>());
+    // long values (beyond any plausible internal buffer size) of multi-byte characters behind an
+    // ASCII prefix of 0-3 bytes, so that characters straddle every power-of-two byte offset
+    let long = (0usize..4, proptest::sample::select(vec!['\u{e9}', '\u{20ac}', '\u{1f980}', '\u{2028}', '"', 'x']), 100usize..1500).prop_map(|(pad, c, n)| long_text(pad, c, n));
+    prop_oneof![12 => short, 1 => long].boxed()
+}
+fn long_text(pad: usize, c: char, n: usize) -> String {
+    let mut s = "abc"[..pad.min(3)].to_string();
+    s.extend(std::iter::repeat(c).take(n));
+    s
 }
 fn val_strategy() -> BoxedStrategy<Val> {
     let f = prop_oneof![
@@ -595,7 +604,13 @@ fn fuzz_val(u: &mut arbitrary::Unstructured<'_>) -> Val {
         let n = u.int_in_range(0u8..=16).unwrap_or(0) as usize;
         String::from_utf8_lossy(u.bytes(n.min(u.len())).unwrap_or(&[])).into_owned()
     };
-    match u.int_in_range(0u8..=10).unwrap_or(0) {
+    match u.int_in_range(0u8..=11).unwrap_or(0) {
+        11 => {
+            let pad = u.int_in_range(0u8..=3).unwrap_or(0) as usize;
+            let c = ['\u{e9}', '\u{20ac}', '\u{1f980}', '"'][u.int_in_range(0u8..=3).unwrap_or(0) as usize];
+            let n = u.int_in_range(100u16..=1500).unwrap_or(100) as usize;
+            Val::Str(long_text(pad, c, n))
+        }
         0 => Val::I64(u.arbitrary().unwrap_or(0)),
         1 => Val::U64(u.arbitrary().unwrap_or(0)),
         2 => Val::I128(u.arbitrary::<i128>().unwrap_or(0).to_string()),
